@@ -230,7 +230,8 @@ func (e *Engine) findAllIndicesLoop(haystack []byte, n int, results [][2]int) []
 	// DFA fast path: call DFA functions directly, skip meta prefilter layer.
 	// SearchFirstAt has integrated prefilter at start state — no duplicate scan.
 	// Saves: 1 prefilter call per candidate + function dispatch overhead.
-	useDFADirect := (e.strategy == UseDFA || e.strategy == UseBoth) &&
+	// Not in Longest (POSIX) mode: the DFA reports leftmost-first match ends.
+	useDFADirect := !e.longest && (e.strategy == UseDFA || e.strategy == UseBoth) &&
 		e.dfa != nil && e.reverseDFA != nil &&
 		state.dfaCache != nil && state.revDFACache != nil
 
